@@ -112,6 +112,17 @@ func (p *Path) input(name string, s Sort) *Sym {
 	p.counters[name] = k + 1
 	full := fmt.Sprintf("%s#%d", name, k)
 	sym := p.declare("|"+full+"|", s)
+	if fv, ok := p.ex.Fixed[full]; ok {
+		// debugging aid: pin this input to a concrete value
+		switch s {
+		case SInt:
+			p.pc = append(p.pc, "(= "+sym.e+" "+fv+")")
+		case SBool:
+			p.pc = append(p.pc, "(= "+sym.e+" "+fv+")")
+		case SStr:
+			p.pc = append(p.pc, "(= "+sym.e+" "+fv+")")
+		}
+	}
 	p.inputs = append(p.inputs, full)
 	p.inputSort[full] = s
 	return sym
